@@ -459,7 +459,7 @@ class Circuit:
         for gate_i,index_i in self.gate_index_list:
             if gate_i.kind in CANONICAL_GATE_KIND:
                 if gate_i.kind=='control':
-                    ret = max(ret, max(index_i[0]), max(index_i[1]))
+                    ret = max(ret, max(index_i[0], default=0), max(index_i[1])) #the control set may be empty
                 else:
                     ret = max(ret, max(index_i))
         ret = ret + 1
